@@ -1,6 +1,7 @@
 import Supv.Props.C08
 import Supv.Props.C11
 import Supv.Model.Net
+import Supv.Lemmas.InstSafe
 
 /-!
 # C16 — No event sequence makes an instance fail internally
@@ -15,6 +16,7 @@ process status synthesis (`KeyError` / `ValueError` in `update_status`).  Proper
 * the hand-written instance model assigns at the same sites under the same guards;
 * every state a Supvisors state class can decide is accepted by the FSM table (C08);
 * the process status synthesis never raises on any admissible history (C11).
+* the handlers of the hand-written instance model never raise `InvalidTransition`, from ANY state (Hoare-style proof);
 The rest of the statement (real components running together: commander, failure handler, XML-RPC, listener entry points) is
 judged on the implementation by harness/c16.py (tracebacks in the last-resort guards, escaped exceptions, hangs).
 -/
@@ -64,5 +66,49 @@ theorem C16_synthesis_never_raises (h : List (Nat × Supv.Proc.POp)) (hok : Supv
     ∃ p, Supv.Proc.prun {} h = .ok p := by
   obtain ⟨p, hp, _⟩ := Supv.Props.C11.C11_listed_iff_spec_partial h hok
   exact ⟨p, hp⟩
+
+/-- **C16, the handlers of the instance model never raise `InvalidTransition`** - from EVERY state (reachable or not), for every
+    configuration, operation (local / remote TICK, STATE, AUTHORIZATION, ALL_INFO(None), INSTANCE_FAILURE, restart, shutdown,
+    end_sync, in any order, stale or duplicated: the theorem does not care where the state comes from), time and oracle
+    (whatever the commander, the failure handler and the process table answer).  The only refusal left is `noMaster` of
+    restart / shutdown without a Master, which the XML-RPC layer answers as the documented fault BAD_SUPVISORS_STATE
+    (`C17_restart_without_master`).  Proof: Hoare triples over the state-and-exception monad (`Lemmas/InstSafe.lean`); each of the
+    eleven assignment sites is discharged by the guard that precedes it and the regenerated table. -/
+theorem C16_instance_handlers_never_raise (c : Cfg) (s : St) (now : Nat) (op : Op) (orc : List (Query × Nat)) :
+    (stepOp c s now op orc).2 = none ∨ (stepOp c s now op orc).2 = some .noMaster := by
+  unfold stepOp
+  have h := (safe_handle c op).run { s with now := now, out := [], oracle := orc, oracleBad := 0 } trivial
+  cases hr : (handle c op).run { s with now := now, out := [], oracle := orc, oracleBad := 0 } with
+  | ok r => left; rfl
+  | error e =>
+    right
+    rw [hr] at h
+    show some e = some Err.noMaster
+    rw [show e = Err.noMaster from h]
+
+/-- in particular over whole histories: no prefix of any sequence of operations, from any start state, meets an
+    `InvalidTransition` -/
+theorem C16_no_invalid_transition_ever (c : Cfg) (ops : List (Nat × Op × List (Query × Nat))) (s : St) (j : Nat) (a b : IState) :
+    ∀ t ∈ (ops.foldl (fun (acc : St × List (Option Err)) x =>
+              let r := stepOp c acc.1 x.1 x.2.1 x.2.2; (r.1, acc.2 ++ [r.2])) (s, [])).2,
+      t ≠ some (.invalidTransition j a b) := by
+  suffices H : ∀ (l : List (Nat × Op × List (Query × Nat))) (acc : St × List (Option Err)),
+      (∀ t ∈ acc.2, t ≠ some (.invalidTransition j a b)) →
+      ∀ t ∈ (l.foldl (fun (acc : St × List (Option Err)) x =>
+              let r := stepOp c acc.1 x.1 x.2.1 x.2.2; (r.1, acc.2 ++ [r.2])) acc).2, t ≠ some (.invalidTransition j a b) by
+    exact H ops (s, []) (by simp)
+  intro l
+  induction l with
+  | nil => intro acc h; simpa using h
+  | cons x t ih =>
+    intro acc h
+    simp only [List.foldl_cons]
+    apply ih
+    intro e he
+    simp only [List.mem_append, List.mem_singleton] at he
+    rcases he with he | he
+    · exact h e he
+    · rcases C16_instance_handlers_never_raise c acc.1 x.1 x.2.1 x.2.2 with h0 | h0 <;> rw [he, h0] <;> simp
+
 
 end Supv.Props.C16
